@@ -1373,7 +1373,7 @@ def _ih_merge(it, self, args, kw):
     a, b = self.f["state"].e, other.f["state"].e
     # merging into / from an empty map never overlaps (law IH-empty, validated)
     if not (z3.eq(a, H["EMPTY"]) or z3.eq(b, H["EMPTY"])):
-        if it.branch(H["OVERLAP"](a, b)):
+        if it.branch(_overlap_formula(H, a, b)):
             it.raise_(intelhex.AddressOverlapError, "Data overlapped")
     if z3.eq(a, H["EMPTY"]):
         self.f["state"] = VOpaque(b, "hexmap")
@@ -1382,6 +1382,26 @@ def _ih_merge(it, self, args, kw):
     else:
         self.f["state"] = VOpaque(H["MERGE"](a, b), "hexmap")
     return NONE
+
+
+def _overlap_formula(H, a, b, depth=0):
+    """Structural laws of the partial-map model (validated differentially):
+         overlap(put(empty, x, d), put(empty, y, e))  <=>  x < y + |e| and y < x + |d| and |d|, |e| > 0
+         overlap(merge(s, t), u) <=> overlap(s, u) or overlap(t, u)      (and symmetrically)
+       anything else stays the uninterpreted predicate."""
+    def single_put(t):
+        return z3.is_app(t) and t.decl().name() == "HEX_PUT" and z3.eq(t.arg(0), H["EMPTY"])
+    def merged(t):
+        return z3.is_app(t) and t.decl().name() == "HEX_MERGE"
+    if depth < 24:
+        if merged(a):
+            return z3.Or(_overlap_formula(H, a.arg(0), b, depth + 1), _overlap_formula(H, a.arg(1), b, depth + 1))
+        if merged(b):
+            return z3.Or(_overlap_formula(H, a, b.arg(0), depth + 1), _overlap_formula(H, a, b.arg(1), depth + 1))
+        if single_put(a) and single_put(b):
+            x, d, y, e = a.arg(1), a.arg(2), b.arg(1), b.arg(2)
+            return z3.And(x < y + z3.Length(e), y < x + z3.Length(d), z3.Length(d) > 0, z3.Length(e) > 0)
+    return H["OVERLAP"](a, b)
 
 
 @handler("IntelHex.minaddr")
